@@ -6,8 +6,12 @@ import (
 	"io"
 	"os"
 	"path/filepath"
+	"testing/iotest"
 
+	"github.com/ipfs/go-cid"
 	carv2 "github.com/ipld/go-car/v2"
+	"github.com/ipld/go-car/v2/index"
+	"github.com/multiformats/go-multihash"
 
 	"verif/kit"
 	"verif/refcar"
@@ -17,6 +21,11 @@ type C14Case struct {
 	Seq     []string `json:"seq"`
 	Cont    string   `json:"cont"` // v1, v2, v2pad
 	Trusted bool     `json:"trusted,omitempty"`
+	Roots   string   `json:"roots,omitempty"`  // root set (header width); "" = "a"
+	Prefix  int      `json:"prefix,omitempty"` // bytes that precede the archive in the source; the source is handed over positioned after them
+	// ZeroEOF: 0 = option off; 1 = ZeroLengthSectionAsEOF on, no padding; 2,3 = option on and 1 / 3 zero
+	// bytes follow the last section (inside DataSize for CARv2)
+	ZeroEOF int `json:"zeroeof,omitempty"`
 }
 
 // probeR counts how far the source has been consumed.
@@ -48,50 +57,99 @@ func (p *probeRS) Seek(off int64, whence int) (int64, error) {
 	return n, err
 }
 
+var c14Sources = []string{"bytes", "stream", "stream1", "streamEOF", "file", "rawfile", "pipe"}
+
 func runC14(c any, x *kit.Ctx) {
 	cs := c.(C14Case)
-	_, rootRaws, _ := kit.Roots("a")
+	rootsName := cs.Roots
+	if rootsName == "" {
+		rootsName = "a"
+	}
+	_, rootRaws, nilRoots := kit.Roots(rootsName)
 	blks := kit.Bs(cs.Seq)
 	var rb []refcar.Block
 	for _, b := range blks {
 		rb = append(rb, b.Ref())
 	}
-	payload := refcar.EncodeV1(rootRaws, false, rb)
+	payload := refcar.EncodeV1(rootRaws, nilRoots, rb)
 	pl, err := refcar.DecodePayload(payload, false, true)
 	if err != nil {
 		panic(err)
 	}
-	var file []byte
+	data := payload
+	switch cs.ZeroEOF {
+	case 2:
+		data = append(append([]byte{}, payload...), 0)
+	case 3:
+		data = append(append([]byte{}, payload...), 0, 0, 0)
+	}
+	var arch []byte
 	var base uint64
 	switch cs.Cont {
 	case "v1":
-		file = payload
+		arch = data
 	case "v2":
-		file = refcar.EncodeV2(payload, 0, 0, refcar.EncodeIndex(refcar.CodecMhIndexSorted, refcar.RecordsOf(pl, false)), false)
+		arch = refcar.EncodeV2(data, 0, 0, refcar.EncodeIndex(refcar.CodecMhIndexSorted, refcar.RecordsOf(pl, false)), false)
 		base = 51
 	case "v2pad":
-		file = refcar.EncodeV2(payload, 7, 3, refcar.EncodeIndex(refcar.CodecIndexSorted, refcar.RecordsOf(pl, false)), false)
+		arch = refcar.EncodeV2(data, 7, 3, refcar.EncodeIndex(refcar.CodecIndexSorted, refcar.RecordsOf(pl, false)), false)
 		base = 58
 	}
-	payloadEnd := int64(base) + int64(len(payload))
+	prefix := int64(cs.Prefix)
+	file := append(bytes.Repeat([]byte{0xAA}, cs.Prefix), arch...)
+	payloadEnd := prefix + int64(base) + int64(len(data)) // absolute, in the source
 	path := filepath.Join(x.Dir, "c14.car")
 	if err := os.WriteFile(path, file, 0o644); err != nil {
 		panic(err)
 	}
 	defer os.Remove(path)
+
+	// what go-car's own index generation records for this payload: Offset must agree with it
+	idxOffsets := map[string][]uint64{}
+	if gi, err := carv2.GenerateIndex(bytes.NewReader(payload), carv2.StoreIdentityCIDs(true)); err == nil {
+		if it, ok := gi.(index.IterableIndex); ok {
+			it.ForEach(func(mh multihash.Multihash, off uint64) error {
+				idxOffsets[string(mh)] = append(idxOffsets[string(mh)], off)
+				return nil
+			})
+		}
+	} else {
+		x.Fail("c14:generate-index", "GenerateIndex fails on the valid payload: %v", err)
+	}
+
 	n := len(blks)
-	for _, srcKind := range []string{"bytes", "stream", "file", "pipe"} {
+	for _, srcKind := range c14Sources {
 		for mask := 0; mask < 1<<n; mask++ {
+			failed := false
+			fail := func(sig, f string, a ...any) { failed = true; x.Fail(sig, f, a...) }
 			var src io.Reader
 			var pr *probeR
 			var closer io.Closer
+			var consumed func() int64 // absolute position the source has been consumed to, when knowable
+			skipPrefix := func(r io.Reader) {
+				if prefix > 0 {
+					if _, err := io.CopyN(io.Discard, r, prefix); err != nil {
+						panic(err)
+					}
+				}
+			}
 			switch srcKind {
 			case "bytes":
-				// the raw *bytes.Reader (ReadSeeker + ByteReader + ReaderAt): no probe possible
-				// without hiding its interfaces, so the over-read bound is checked on the others
-				src = bytes.NewReader(file)
-			case "stream":
-				p := &probeR{r: bytes.NewReader(file)}
+				// the raw *bytes.Reader (ReadSeeker + ByteReader + ReaderAt)
+				r := bytes.NewReader(file)
+				r.Seek(prefix, io.SeekStart)
+				src = r
+				consumed = func() int64 { return int64(len(file)) - int64(r.Len()) }
+			case "stream", "stream1", "streamEOF":
+				// the probe sits on top of the short-read wrappers: what is counted is what go-car consumes
+				var inner io.Reader = bytes.NewReader(file)
+				if srcKind == "stream1" {
+					inner = iotest.OneByteReader(inner)
+				} else if srcKind == "streamEOF" {
+					inner = iotest.DataErrReader(inner)
+				}
+				p := &probeR{r: inner}
+				skipPrefix(p)
 				pr = p
 				src = p
 			case "pipe":
@@ -101,6 +159,7 @@ func runC14(c any, x *kit.Ctx) {
 					panic(err)
 				}
 				go func() { pw.Write(file); pw.Close() }()
+				skipPrefix(pr_)
 				closer = pr_
 				src = pr_
 			case "file":
@@ -108,16 +167,34 @@ func runC14(c any, x *kit.Ctx) {
 				if err != nil {
 					panic(err)
 				}
+				f.Seek(prefix, io.SeekStart)
 				closer = f
-				p := &probeRS{probeR: probeR{r: f}, s: f}
+				p := &probeRS{probeR: probeR{r: f, pos: prefix, maxRead: prefix}, s: f}
 				pr = &p.probeR
 				src = p
+			case "rawfile":
+				// the *os.File itself: ReaderAt, ReaderFrom, WriterTo as well as ReadSeeker
+				f, err := os.Open(path)
+				if err != nil {
+					panic(err)
+				}
+				f.Seek(prefix, io.SeekStart)
+				closer = f
+				src = f
+				consumed = func() int64 { p, _ := f.Seek(0, io.SeekCurrent); return p }
 			}
 			tag := cs.Cont + ":" + srcKind
 			var bropts []carv2.Option
 			if cs.Trusted {
 				bropts = append(bropts, carv2.WithTrustedCAR(true))
 				tag += ":trusted"
+			}
+			if cs.ZeroEOF > 0 {
+				bropts = append(bropts, carv2.ZeroLengthSectionAsEOF(true))
+				tag += ":zeroeof"
+			}
+			if prefix > 0 {
+				tag += ":prefixed"
 			}
 			br, err := carv2.NewBlockReader(src, bropts...)
 			x.Eval(1)
@@ -128,76 +205,133 @@ func runC14(c any, x *kit.Ctx) {
 				}
 				continue
 			}
+			wantV := uint64(1)
+			if cs.Cont != "v1" {
+				wantV = 2
+			}
+			if br.Version != wantV {
+				fail("c14:version:"+tag, "BlockReader.Version=%d want %d", br.Version, wantV)
+			}
+			if len(br.Roots) != len(rootRaws) {
+				fail("c14:roots:"+tag, "BlockReader.Roots has %d entries want %d", len(br.Roots), len(rootRaws))
+			} else {
+				for i, r := range br.Roots {
+					if !bytes.Equal(r.Bytes(), rootRaws[i]) {
+						fail("c14:roots:"+tag, "root #%d differs", i)
+					}
+				}
+			}
 			for i := 0; i < n; i++ {
 				sec := pl.Sections[i]
 				x.Transition(1)
 				if mask&(1<<i) != 0 {
 					md, err := br.SkipNext()
 					if err != nil {
-						x.Fail("c14:skip-error:"+tag, "SkipNext #%d (choices %0*b) failed: %v", i, n, mask, err)
+						fail("c14:skip-error:"+tag, "SkipNext #%d (choices %0*b) failed: %v", i, n, mask, err)
 						break
 					}
 					if !bytes.Equal(md.Cid.Bytes(), sec.Cid) {
-						x.Fail("c14:skip-cid:"+tag, "SkipNext #%d (choices %0*b) CID %x want %x", i, n, mask, md.Cid.Bytes(), sec.Cid)
+						fail("c14:skip-cid:"+tag, "SkipNext #%d (choices %0*b) CID %x want %x", i, n, mask, md.Cid.Bytes(), sec.Cid)
 						break
 					}
 					if md.Offset != sec.Offset {
-						x.Fail("c14:offset:"+tag, "SkipNext #%d (choices %0*b) Offset=%d want %d", i, n, mask, md.Offset, sec.Offset)
+						fail("c14:offset:"+tag, "SkipNext #%d (choices %0*b) Offset=%d want %d", i, n, mask, md.Offset, sec.Offset)
 					}
 					if md.SourceOffset != base+sec.Offset {
-						x.Fail("c14:source-offset:"+tag, "SkipNext #%d (choices %0*b) SourceOffset=%d want %d", i, n, mask, md.SourceOffset, base+sec.Offset)
+						fail("c14:source-offset:"+tag, "SkipNext #%d (choices %0*b) SourceOffset=%d want %d", i, n, mask, md.SourceOffset, base+sec.Offset)
 					}
 					if md.Size != uint64(len(sec.Data)) {
-						x.Fail("c14:size:"+tag, "SkipNext #%d (choices %0*b) Size=%d want %d", i, n, mask, md.Size, len(sec.Data))
+						fail("c14:size:"+tag, "SkipNext #%d (choices %0*b) Size=%d want %d", i, n, mask, md.Size, len(sec.Data))
 					}
-					// the varint found at those offsets is the section's
-					if md.SourceOffset < uint64(len(file)) {
-						if l, _, err := refcar.Uvarint(file[md.SourceOffset:]); err != nil || l != uint64(len(sec.Cid)+len(sec.Data)) {
-							x.Fail("c14:source-offset-bytes:"+tag, "varint at SourceOffset %d is not the section's length prefix", md.SourceOffset)
+					// the bytes found at that offset of the archive are this section: length prefix, then the CID
+					if so := md.SourceOffset; so < uint64(len(arch)) {
+						l, vn, err := refcar.Uvarint(arch[so:])
+						if err != nil || l != uint64(len(sec.Cid)+len(sec.Data)) || !bytes.HasPrefix(arch[int(so)+vn:], sec.Cid) {
+							fail("c14:source-offset-bytes:"+tag, "the bytes at SourceOffset %d are not this section's length prefix and CID", so)
+						}
+					} else {
+						fail("c14:source-offset-bytes:"+tag, "SourceOffset %d lies outside the archive", md.SourceOffset)
+					}
+					// ... and Offset is an offset go-car's own index generation records for that multihash
+					if c, err := cid.Cast(sec.Cid); err == nil {
+						found := false
+						for _, o := range idxOffsets[string(c.Hash())] {
+							if o == md.Offset {
+								found = true
+							}
+						}
+						if !found {
+							fail("c14:offset-vs-index:"+tag, "SkipNext #%d Offset=%d is not among the offsets GenerateIndex records for that multihash (%v)", i, md.Offset, idxOffsets[string(c.Hash())])
 						}
 					}
 				} else {
 					b, err := br.Next()
 					if err != nil {
-						x.Fail("c14:next-error:"+tag, "Next #%d (choices %0*b) failed: %v", i, n, mask, err)
+						fail("c14:next-error:"+tag, "Next #%d (choices %0*b) failed: %v", i, n, mask, err)
 						break
 					}
 					if !bytes.Equal(b.Cid().Bytes(), sec.Cid) || !bytes.Equal(b.RawData(), sec.Data) {
-						x.Fail("c14:next-block:"+tag, "Next #%d (choices %0*b) returned %x want %x", i, n, mask, b.Cid().Bytes(), sec.Cid)
+						fail("c14:next-block:"+tag, "Next #%d (choices %0*b) returned %x want %x", i, n, mask, b.Cid().Bytes(), sec.Cid)
 						break
 					}
 				}
 			}
-			if !x.Failed() {
-				// end of archive, whichever call asks
-				var err error
-				if mask&1 != 0 {
-					_, err = br.SkipNext()
-				} else {
-					_, err = br.Next()
+			if !failed {
+				// end of archive, whichever calls ask: every pair over {Next, SkipNext} is spread over the masks
+				// (and all four pairs are tried for the all-Next and all-Skip strings)
+				call := func(skip bool) error {
+					if skip {
+						_, err := br.SkipNext()
+						return err
+					}
+					_, err := br.Next()
+					return err
 				}
-				if err != io.EOF {
-					x.Fail("c14:eof:"+tag, "call after the last block (choices %0*b) returned %v want io.EOF", n, mask, err)
+				first, second := mask&1 != 0, (mask>>1)&1 != 0
+				if n < 2 {
+					second = (mask+n)%2 == 0
 				}
-				_, err = br.Next()
-				if err != io.EOF {
-					x.Fail("c14:eof-sticky:"+tag, "second call after the end returned %v want io.EOF", err)
+				if err := call(first); err != io.EOF {
+					fail("c14:eof:"+tag, "call after the last block (choices %0*b, skip=%v) returned %v want io.EOF", n, mask, first, err)
+				}
+				if err := call(second); err != io.EOF {
+					fail("c14:eof-sticky:"+tag, "second call after the end (skip=%v) returned %v want io.EOF", second, err)
+				}
+				if err := call(!second); err != io.EOF {
+					fail("c14:eof-sticky:"+tag, "third call after the end (skip=%v) returned %v want io.EOF", !second, err)
 				}
 			}
-			if pr != nil && cs.Cont != "v1" && pr.maxRead > payloadEnd {
-				x.Fail("c14:overread:"+tag, "source consumed up to offset %d, payload ends at %d (choices %0*b)", pr.maxRead, payloadEnd, n, mask)
+			if cs.Cont != "v1" {
+				// the source is never consumed past the end of the payload
+				switch {
+				case pr != nil:
+					if pr.maxRead > payloadEnd {
+						fail("c14:overread:"+tag, "source consumed up to offset %d, payload ends at %d (choices %0*b)", pr.maxRead, payloadEnd, n, mask)
+					}
+				case consumed != nil:
+					if p := consumed(); p > payloadEnd {
+						fail("c14:overread:"+tag, "source positioned at %d after the scan, payload ends at %d (choices %0*b)", p, payloadEnd, n, mask)
+					}
+				case srcKind == "pipe":
+					rest, _ := io.Copy(io.Discard, src)
+					if want := int64(len(file)) - payloadEnd; rest < want {
+						fail("c14:overread:"+tag, "only %d bytes are left in the pipe after the scan, %d follow the payload (choices %0*b)", rest, want, n, mask)
+					}
+				}
 			}
 			if closer != nil {
 				closer.Close()
 			}
 			if mask != 0 && mask != 1<<n-1 {
-				x.Nontrivial(fmt.Sprintf("%v|%s|%s|%d", cs.Seq, cs.Cont, srcKind, mask))
+				x.Nontrivial(fmt.Sprintf("%v|%s|%s|%d|%s|%d|%d", cs.Seq, cs.Cont, srcKind, mask, rootsName, cs.Prefix, cs.ZeroEOF))
 			}
 		}
 	}
-	x.State(fmt.Sprintf("%s|%x", cs.Cont, payload))
+	x.State(fmt.Sprintf("%s|%x|%d|%d", cs.Cont, payload, cs.Prefix, cs.ZeroEOF))
 	x.Outcome(fmt.Sprintf("n=%d", n))
 }
+
+var c14Conts = []string{"v1", "v2", "v2pad"}
 
 func genC14(tier string, emit func(any)) {
 	names := []string{"e", "i0", "a0", "s", "L127", "L128"}
@@ -207,18 +341,56 @@ func genC14(tier string, emit func(any)) {
 		maxLen = 5
 	}
 	kit.Seqs(names, maxLen, func(s []string) {
-		for _, cont := range []string{"v1", "v2", "v2pad"} {
+		for _, cont := range c14Conts {
 			emit(C14Case{Seq: s, Cont: cont})
 			if len(s) <= maxLen-1 {
 				emit(C14Case{Seq: s, Cont: cont, Trusted: true})
 			}
 		}
 	})
+	// header shapes (length prefix 1, 2 and 3 bytes wide; no roots; null roots; CIDv0, sha512, duplicate roots),
+	// a source that is not at position 0 when handed over, and ZeroLengthSectionAsEOF with and without null padding:
+	// each crossed with all sequences up to a reduced length
+	redLen := 2
+	if tier == "thorough" {
+		redLen = 3
+	}
+	rootSets := []string{"empty", "nil", "ab", "aa", "a0", "s", "r4", "r24", "r100"}
+	if tier == "thorough" {
+		rootSets = append(rootSets, "r400")
+	}
+	kit.Seqs(names, redLen, func(s []string) {
+		for _, cont := range c14Conts {
+			for _, rs := range rootSets {
+				emit(C14Case{Seq: s, Cont: cont, Roots: rs})
+			}
+			for _, pfx := range []int{1, 200, 5000} {
+				emit(C14Case{Seq: s, Cont: cont, Prefix: pfx})
+				emit(C14Case{Seq: s, Cont: cont, Prefix: pfx, Roots: "r4"})
+			}
+			for z := 1; z <= 3; z++ {
+				emit(C14Case{Seq: s, Cont: cont, ZeroEOF: z})
+				emit(C14Case{Seq: s, Cont: cont, ZeroEOF: z, Prefix: 1, Roots: "r4"})
+			}
+		}
+	})
+	// sections around the 3->4 byte length-prefix boundary and larger than any copy buffer or pipe buffer
+	big := [][]string{{"L70000", "a"}, {"a", "L70000", "e"}}
+	if tier == "thorough" {
+		big = append(big, []string{"L2097151", "a"}, []string{"L2097152", "a"}, []string{"a", "L2097152"})
+	}
+	for _, s := range big {
+		for _, cont := range c14Conts {
+			emit(C14Case{Seq: s, Cont: cont})
+			emit(C14Case{Seq: s, Cont: cont, Prefix: 200, Roots: "r4", ZeroEOF: 2})
+		}
+	}
 	if tier == "thorough" {
 		six := [][]string{{"e", "i0", "a0", "s", "L127", "L128"}, {"L128", "L127", "s", "a0", "i0", "e"}, {"L16384", "e", "L16383", "i0", "X", "a"}, {"a", "a", "a", "a", "a", "a"}}
 		for _, s := range six {
-			for _, cont := range []string{"v1", "v2", "v2pad"} {
+			for _, cont := range c14Conts {
 				emit(C14Case{Seq: s, Cont: cont})
+				emit(C14Case{Seq: s, Cont: cont, Prefix: 200, Roots: "r4", ZeroEOF: 3})
 			}
 		}
 	}
@@ -230,14 +402,17 @@ func init() {
 		Gen:    genC14,
 		Run:    runC14,
 		Decode: kit.DecodeAs[C14Case],
-		Rule: "every archive with up to N blocks over an alphabet of CID widths 4..68 and section lengths at varint boundaries x {CARv1, CARv2, padded CARv2 with index} x {verifying, TrustedCAR} x EVERY Next/SkipNext choice string (2^n) x {bytes.Reader, plain stream, *os.File, *os.File over a pipe}; " +
-			"metadata compared with the reference layout and the bytes; source consumption probed; non-trivial = choice string mixing both calls",
+		Rule: "every archive with up to N blocks over an alphabet of CID widths 4..68 and section lengths at varint boundaries x {CARv1, CARv2, padded CARv2 with index} x {verifying, TrustedCAR} x EVERY Next/SkipNext choice string (2^n) " +
+			"x {bytes.Reader, plain stream, one-byte-read stream, data-with-EOF stream, wrapped *os.File, raw *os.File, *os.File over a pipe}; crossed (reduced length) with 10 header shapes (0..400 roots: length prefix 1-3 bytes, null/empty/CIDv0/sha512/duplicate roots), " +
+			"a source positioned 1/200/5000 bytes into its stream, and ZeroLengthSectionAsEOF with 0/1/3 bytes of null padding; sections of 70000 and 2^21 bytes; " +
+			"metadata compared with the reference layout, with the bytes at those offsets and with go-car's own GenerateIndex; Version/Roots compared; every {Next,SkipNext} pair (and a third call) at the end must give io.EOF; source consumption bounded on every source kind; non-trivial = choice string mixing both calls",
 		Bound: func(tier string) map[string]any {
 			if tier == "thorough" {
-				return map[string]any{"blocks": "<=5 exhaustive over 9 block shapes, plus selected 6-block archives", "choice_strings": "all 2^n"}
+				return map[string]any{"blocks": "<=5 exhaustive over 9 block shapes, plus selected 6-block and large-section archives", "choice_strings": "all 2^n", "sources": len(c14Sources), "header_shapes": 11, "cross_product_blocks": "<=3"}
 			}
-			return map[string]any{"blocks": "<=4 exhaustive over 6 block shapes", "choice_strings": "all 2^n"}
+			return map[string]any{"blocks": "<=4 exhaustive over 6 block shapes, plus large-section archives", "choice_strings": "all 2^n", "sources": len(c14Sources), "header_shapes": 10, "cross_product_blocks": "<=2"}
 		},
-		Assumptions: []string{"refcar layout is correct", "over-read bound is probed on the stream and file sources (a raw bytes.Reader cannot be probed without hiding its interfaces)"},
+		Assumptions: []string{"refcar layout is correct", "a 'valid CAR' has a canonical DAG-CBOR header (a header go-car's lenient decoder accepts but re-encodes at another length is outside the property)",
+			"SourceOffset is relative to where the archive starts in the source (the position at which the source was handed to NewBlockReader)"},
 	})
 }
